@@ -60,6 +60,7 @@ def split_out_segments(lines: list[str], segs: list[str], sep: str, ii: str, si:
 
 class C05(Prop):
     id = "C05"
+    once_kinds = ("exh",)
     rule = ("cases: (a) bounded-exhaustive sweep of wrap_paragraph_lines over all word-length vectors of <=5 words "
             "with lengths 1..4 x widths 1..8 x initial column 0..3 x subsequent offset 0..3; (b) seeded random "
             "G-para paragraphs (plain/long words, hazard tokens, atomic constructs) through wrap_paragraph_lines, "
